@@ -9,6 +9,7 @@ import (
 	"go/token"
 	"go/types"
 	"sort"
+	"strings"
 )
 
 // c10WriteKeepsNoCallerBytes (seeded C10-J): an io.Writer of the product copies what it keeps. A Write method that
@@ -207,6 +208,471 @@ func init() {
 		wrap(id, func(p *Prog, r *Report) {
 			r.Rule(rule, "a Write method of the product keeps no reference to its caller's slice: what stays behind after Write has returned is a copy")
 			c10WriteKeepsNoCallerBytes(p, r, rule)
+		})
+	}
+}
+
+// c09AllStoreNeverAsksTheMirror (seeded C09-J): the all-store is built without the search mirror (WithoutSearch),
+// so its per-key array is never filled. A method called on the all-store that reads the array outside the
+// `!withoutSearch` maintenance guards decides by data that is always empty: the collector (or whoever calls it)
+// treats every key of the all-store as having no version.
+func c09AllStoreNeverAsksTheMirror(p *Prog, r *Report, rule string) {
+	pkg := p.Pkg("internal/usecase/core")
+	if pkg == nil {
+		return
+	}
+	sites := 0
+	reported := map[string]bool{}
+	for _, k := range sortedFuncKeys(p) {
+		fi := p.Funcs[k]
+		if fi.Pkg != pkg || fi.Decl == nil || fi.Decl.Body == nil {
+			continue
+		}
+		info := pkg.TypesInfo
+		ast.Inspect(fi.Decl.Body, func(x ast.Node) bool {
+			c, ok := x.(*ast.CallExpr)
+			if !ok {
+				return true
+			}
+			sel, ok := ast.Unparen(c.Fun).(*ast.SelectorExpr)
+			if !ok {
+				return true
+			}
+			fsel, ok := ast.Unparen(sel.X).(*ast.SelectorExpr)
+			if !ok || fsel.Sel.Name != allStoreField {
+				return true
+			}
+			if fv, ok := info.Uses[fsel.Sel].(*types.Var); !ok || !fv.IsField() {
+				return true
+			}
+			sites++
+			callee := p.staticCallee(pkg, c)
+			if callee == nil {
+				return true
+			}
+			at, via := p.readsMirrorUnguarded(callee, 0, map[string]bool{})
+			cons := fmt.Sprintf("%s#all-store.%s", k, sel.Sel.Name)
+			if at != nil {
+				if !reported[cons] {
+					reported[cons] = true
+					r.Viol(rule, cons, p.pos(at), "the all-store keeps no search mirror (it is built WithoutSearch), and "+via+" reads the per-key array to decide: for the all-store the array is always empty, so every key looks as if it had no version (ReadUncommitted readers lose every key once this has run)")
+				}
+			} else if !reported[cons] {
+				reported[cons] = true
+				r.Hold(rule, cons, p.pos(c), "does not consult the search mirror")
+			}
+			return true
+		})
+	}
+	r.Floor(rule, "all-store-call-sites", sites, 6)
+}
+
+// readsMirrorUnguarded: a read of the per-key array (fileFields.Arr) in fi or a static callee (depth 3) that is
+// not inside an if whose condition tests the WithoutSearch flag.
+func (p *Prog) readsMirrorUnguarded(fi *FuncInfo, depth int, seen map[string]bool) (ast.Node, string) {
+	if seen[fi.Key] || depth > 3 {
+		return nil, ""
+	}
+	seen[fi.Key] = true
+	info := fi.Pkg.TypesInfo
+	var at ast.Node
+	via := ""
+	var walk func(n ast.Node, guarded bool)
+	walk = func(n ast.Node, guarded bool) {
+		ast.Inspect(n, func(x ast.Node) bool {
+			if at != nil || x == nil {
+				return false
+			}
+			switch s := x.(type) {
+			case *ast.IfStmt:
+				g := guarded
+				ast.Inspect(s.Cond, func(y ast.Node) bool {
+					if sel, ok := y.(*ast.SelectorExpr); ok && sel.Sel.Name == fileFields.Flag {
+						g = true
+					}
+					return true
+				})
+				if s.Init != nil {
+					walk(s.Init, guarded)
+				}
+				walk(s.Cond, guarded)
+				walk(s.Body, g)
+				if s.Else != nil {
+					walk(s.Else, guarded)
+				}
+				return false
+			case *ast.SelectorExpr:
+				if s.Sel.Name == fileFields.Arr && !guarded {
+					if fv, ok := info.Uses[s.Sel].(*types.Var); ok && fv.IsField() && shortPath(fv.Pkg().Path()) == "internal/model/core" {
+						at, via = s, fi.Key
+					}
+				}
+			case *ast.CallExpr:
+				if callee := p.staticCallee(fi.Pkg, s); callee != nil && shortPath(callee.Pkg.PkgPath) == "internal/model/core" {
+					if n, v := p.readsMirrorUnguarded(callee, depth+1, seen); n != nil {
+						at, via = n, v
+					}
+				}
+			}
+			return true
+		})
+	}
+	walk(fi.Decl.Body, false)
+	return at, via
+}
+
+// c09DeleteKeepsTheBytes (seeded C09-I): removing a version's content is an unlink and nothing else. A reader that
+// opened the version before the collector (or a commit, a rollback) removed it keeps reading the unlinked file; a
+// truncation or rewrite of the path before the unlink shortens what that reader gets.
+func c09DeleteKeepsTheBytes(p *Prog, r *Report, rule string) {
+	k := "(*internal/repository/content.Repo).Delete"
+	fi := p.Func(k)
+	if fi == nil {
+		r.Undecided(rule, k, "", "content.Repo.Delete not found")
+		return
+	}
+	contentMutators := map[string]bool{"os.Truncate": true, "os.WriteFile": true, "os.Create": true, "os.OpenFile": true,
+		"(*os.File).Truncate": true, "(*os.File).Write": true, "(*os.File).WriteString": true, "(*os.File).WriteAt": true, "io/ioutil.WriteFile": true}
+	var at ast.Node
+	what := ""
+	n := 0
+	seen := map[string]bool{}
+	var walk func(f *FuncInfo, depth int)
+	walk = func(f *FuncInfo, depth int) {
+		if seen[f.Key] || depth > 3 {
+			return
+		}
+		seen[f.Key] = true
+		n++
+		ast.Inspect(f.Decl.Body, func(x ast.Node) bool {
+			c, ok := x.(*ast.CallExpr)
+			if !ok || at != nil {
+				return at == nil
+			}
+			if fn, ok := typeutilCallee(f.Pkg.TypesInfo, c); ok {
+				name := fn.FullName()
+				if contentMutators[name] {
+					at, what = c, name
+					return false
+				}
+			}
+			if callee := p.staticCallee(f.Pkg, c); callee != nil {
+				walk(callee, depth+1)
+			}
+			return true
+		})
+	}
+	walk(fi, 0)
+	pos := p.pos(fi.Decl)
+	if at != nil {
+		pos = p.pos(at)
+	}
+	r.Check(at == nil, rule, k+"#unlinks-only", pos, fmt.Sprintf("no call that changes the file's bytes (%d functions followed)", n),
+		"removing a content calls "+what+": the bytes of a version change while a reader that opened it before the removal is still reading, and that reader gets a shortened or different content")
+}
+
+func typeutilCallee(info *types.Info, c *ast.CallExpr) (*types.Func, bool) {
+	var id *ast.Ident
+	switch f := ast.Unparen(c.Fun).(type) {
+	case *ast.SelectorExpr:
+		id = f.Sel
+	case *ast.Ident:
+		id = f
+	default:
+		return nil, false
+	}
+	fn, ok := info.Uses[id].(*types.Func)
+	return fn, ok && fn != nil
+}
+
+// c15NoLazyViewLeavesItsLock (seeded C15-J): maps.Keys / maps.Values / maps.All / slices.All / slices.Values /
+// slices.Backward return iterators that read the container when they are ranged over, not when they are made. A
+// method of a struct that owns a mutex and returns (or stores) such a view of one of its fields hands out an
+// unlocked read of the field: the deferred unlock has run by the time the caller iterates.
+func c15NoLazyViewLeavesItsLock(p *Prog, r *Report, rule string) {
+	lazy := map[string]bool{"maps.Keys": true, "maps.Values": true, "maps.All": true, "slices.All": true, "slices.Values": true, "slices.Backward": true}
+	methods := 0
+	for _, k := range sortedFuncKeys(p) {
+		fi := p.Funcs[k]
+		if fi.Decl == nil || fi.Decl.Body == nil || fi.Decl.Recv == nil || len(fi.Decl.Recv.List) != 1 || len(fi.Decl.Recv.List[0].Names) != 1 {
+			continue
+		}
+		info := fi.Pkg.TypesInfo
+		recv := info.Defs[fi.Decl.Recv.List[0].Names[0]]
+		if recv == nil || !ownsMutex(recv.Type()) {
+			continue
+		}
+		methods++
+		isLazyView := func(e ast.Expr) *ast.CallExpr {
+			c, ok := ast.Unparen(e).(*ast.CallExpr)
+			if !ok || len(c.Args) != 1 {
+				return nil
+			}
+			fn, ok := typeutilCallee(info, c)
+			if !ok || fn.Pkg() == nil || !lazy[fn.Pkg().Path()+"."+fn.Name()] {
+				return nil
+			}
+			// of a field of the receiver
+			root := c.Args[0]
+			for {
+				switch x := ast.Unparen(root).(type) {
+				case *ast.SelectorExpr:
+					root = x.X
+					continue
+				case *ast.IndexExpr:
+					root = x.X
+					continue
+				case *ast.StarExpr:
+					root = x.X
+					continue
+				}
+				break
+			}
+			if objOf(info, root) != recv || ast.Unparen(c.Args[0]) == ast.Unparen(root) {
+				return nil
+			}
+			return c
+		}
+		// locals holding a lazy view
+		views := map[types.Object]*ast.CallExpr{}
+		ast.Inspect(fi.Decl.Body, func(x ast.Node) bool {
+			if as, ok := x.(*ast.AssignStmt); ok && len(as.Lhs) == len(as.Rhs) {
+				for i, l := range as.Lhs {
+					if c := isLazyView(as.Rhs[i]); c != nil {
+						if o := objOf(info, l); o != nil {
+							views[o] = c
+						}
+					}
+				}
+			}
+			return true
+		})
+		viewOf := func(e ast.Expr) *ast.CallExpr {
+			if c := isLazyView(e); c != nil {
+				return c
+			}
+			if o := objOf(info, e); o != nil {
+				return views[o]
+			}
+			return nil
+		}
+		var at *ast.CallExpr
+		how := ""
+		walkNoLit(fi.Decl.Body, func(x ast.Node) bool {
+			switch s := x.(type) {
+			case *ast.ReturnStmt:
+				for _, res := range s.Results {
+					if c := viewOf(res); c != nil {
+						at, how = c, "returned"
+					}
+				}
+			case *ast.AssignStmt:
+				if len(s.Lhs) == len(s.Rhs) {
+					for i, l := range s.Lhs {
+						if _, isSel := ast.Unparen(l).(*ast.SelectorExpr); isSel {
+							if c := viewOf(s.Rhs[i]); c != nil {
+								at, how = c, "stored in "+types.ExprString(l)
+							}
+						}
+					}
+				}
+			case *ast.SendStmt:
+				if c := viewOf(s.Value); c != nil {
+					at, how = c, "sent on a channel"
+				}
+			}
+			return true
+		})
+		if at != nil {
+			r.Viol(rule, k+"#lazy-view", p.pos(at), types.ExprString(at)+" is "+how+": the iterator reads "+types.ExprString(at.Args[0])+" when it is ranged over, after this method's lock has been released, concurrently with the methods that write the field")
+		}
+	}
+	r.Hold(rule, "methods-of-mutex-owning-types", "", fmt.Sprintf("%d methods examined", methods))
+	r.Floor(rule, "methods-of-mutex-owning-types", methods, 20)
+}
+
+// ownsMutex: t (or its pointee) is a struct with a sync.Mutex / sync.RWMutex field.
+func ownsMutex(t types.Type) bool {
+	if pt, ok := t.Underlying().(*types.Pointer); ok {
+		t = pt.Elem()
+	}
+	st, ok := t.Underlying().(*types.Struct)
+	if !ok {
+		return false
+	}
+	for i := 0; i < st.NumFields(); i++ {
+		ft := st.Field(i).Type()
+		if pt, ok := ft.(*types.Pointer); ok {
+			ft = pt.Elem()
+		}
+		if s := ft.String(); s == "sync.Mutex" || s == "sync.RWMutex" {
+			return true
+		}
+	}
+	return false
+}
+
+func init() {
+	wrap := func(id string, extra func(p *Prog, r *Report)) {
+		old := registry[id]
+		registry[id] = func(p *Prog, r *Report) {
+			old(p, r)
+			extra(p, r)
+		}
+	}
+	wrap("C09", func(p *Prog, r *Report) {
+		r.Rule("C09.i", "no method called on the all-store decides by the per-key search array, which the all-store (WithoutSearch) never fills")
+		c09AllStoreNeverAsksTheMirror(p, r, "C09.i")
+		r.Rule("C09.j", "removing a content is an unlink only: nothing on the way truncates or rewrites the file an earlier reader still has open")
+		c09DeleteKeepsTheBytes(p, r, "C09.j")
+	})
+	wrap("C15", func(p *Prog, r *Report) {
+		r.Rule("C15.f", "no lazy iterator (maps.Keys/Values/All, slices.All/Values/Backward) over a field of a mutex-owning struct is returned, stored or sent by its methods")
+		c15NoLazyViewLeavesItsLock(p, r, "C15.f")
+	})
+}
+
+// c13FinishOnlyWhatTheRegistryReleased (seeded C03-I): Commit and Rollback touch a transaction's versions (publish
+// them, discard them) only after the registry has released that very transaction: while the error of the
+// registry's Delete may be non-nil, neither core.UpdateTx nor core.DeleteTx is reachable. With no id in the context
+// the id is the main store's, which the registry never holds; discarding "its" versions empties the committed state.
+func c13FinishOnlyWhatTheRegistryReleased(p *Prog, r *Report, rule string) {
+	n := 0
+	for _, k := range []string{kTxCommit, kTxRollback} {
+		fi := p.Func(k)
+		if fi == nil {
+			r.Undecided(rule, k, "", "not found")
+			continue
+		}
+		f := p.FlatInlExcept(fi, kTxRepoDelete, kCoreDeleteTx, kUpdateTx)
+		sites := f.CallSites(kTxRepoDelete)
+		if len(sites) == 0 {
+			r.Undecided(rule, k+"#registry-release", p.pos(fi.Decl), "no call of the registry's Delete found")
+			continue
+		}
+		for _, s := range sites {
+			if s.Kind != "assigned" || s.ErrVar == nil {
+				r.Undecided(rule, k+"#registry-release", p.pos(s.Call), "the error of the registry's Delete is not bound to a variable")
+				continue
+			}
+			st := f.ErrStatesFrom(s.Node, s.ErrVar)
+			for _, id := range f.CallNodes(kCoreDeleteTx, kUpdateTx) {
+				if !f.ReachableAfter(s.Node, map[int]bool{id: true}, nil) {
+					continue
+				}
+				n++
+				// the dataflow tracks the non-nil worlds of the error only: any state here is a failure of Delete
+				bad := strings.Join(st.at(id), ", ")
+				what := "core.DeleteTx (discard)"
+				if f.nodeCalls(f.Nodes[id], kUpdateTx) != nil {
+					what = "core.UpdateTx (publish)"
+				}
+				r.Check(bad == "", rule, fmt.Sprintf("%s#%s only after the registry released the transaction", k, what), p.pos(f.Nodes[id].Ast),
+					"reachable only with a nil error of the registry's Delete",
+					what+" runs although the registry's Delete may have failed ("+bad+"): for an id the registry does not hold (a finished transaction, or no id at all = the main store's id) the versions stored under that id are published or thrown away; without an id header that is the whole committed state")
+			}
+		}
+	}
+	r.Floor(rule, "finishing-calls", n, 2)
+}
+
+func init() {
+	wrap := func(id string, extra func(p *Prog, r *Report)) {
+		old := registry[id]
+		registry[id] = func(p *Prog, r *Report) {
+			old(p, r)
+			extra(p, r)
+		}
+	}
+	for id, rule := range map[string]string{"C13": "C13.i", "C03": "C03.h"} {
+		id, rule := id, rule
+		wrap(id, func(p *Prog, r *Report) {
+			r.Rule(rule, "Commit and Rollback publish / discard a transaction's versions only on the nil-error edge of the registry's Delete")
+			c13FinishOnlyWhatTheRegistryReleased(p, r, rule)
+		})
+	}
+}
+
+// c04BatchResultIsBadgersResult (seeded C04-I): Manager.RunTransaction reports what Badger reported. Once db.Update
+// has returned nil the batch is durable; a return of anything but nil on that path (the caller's ctx.Err(), a
+// status of something else) makes the commit look failed: the use case throws the just-committed versions away
+// while they stay in Badger, and a crash before the cleaner is done brings a "failed" commit back.
+func c04BatchResultIsBadgersResult(p *Prog, r *Report, rule string) {
+	k := "(*internal/db/badger.Manager).RunTransaction"
+	fi := p.Func(k)
+	if fi == nil {
+		r.Undecided(rule, k, "", "Manager.RunTransaction not found")
+		return
+	}
+	info := fi.Pkg.TypesInfo
+	f := p.FlatOf(fi)
+	isUpdate := func(c *ast.CallExpr) bool {
+		fn, ok := typeutilCallee(info, c)
+		return ok && fn.Name() == "Update" && fn.Pkg() != nil && strings.Contains(fn.Pkg().Path(), "badger")
+	}
+	n := 0
+	for _, nd := range f.Nodes {
+		if nd.Ast == nil {
+			continue
+		}
+		for _, c := range callsIn(nd.Ast, false) {
+			if !isUpdate(c) {
+				continue
+			}
+			n++
+			bs := f.bindOf(nd, c)
+			cons := k + "#success-of-the-batch-is-success"
+			switch bs.Kind {
+			case "returned":
+				r.Hold(rule, cons, p.pos(c), "the result of db.Update is returned as it is")
+			case "assigned":
+				st := f.ErrStatesFrom(bs.Node, bs.ErrVar)
+				bad, badPos := "", ""
+				// the dataflow tracks the non-nil worlds of the error: a node without a state is reached only
+				// with a nil error
+				for _, id := range f.ReturnNodes() {
+					if !f.ReachableAfter(bs.Node, map[int]bool{id: true}, nil) {
+						continue
+					}
+					rs := f.returnStmt(id)
+					if rs == nil || len(rs.Results) != 1 {
+						continue
+					}
+					res := ast.Unparen(rs.Results[0])
+					if isNilIdent(info, res) || objOf(info, res) == bs.ErrVar {
+						continue
+					}
+					if len(st[id]) > 0 && usesObj(info, res, bs.ErrVar) {
+						continue // the failure path: the error, wrapped
+					}
+					bad, badPos = types.ExprString(res), p.pos(rs)
+				}
+				if bad != "" {
+					r.Viol(rule, cons, badPos, "after db.Update has returned nil (the batch is committed) RunTransaction returns "+bad+": a durable commit is reported as failed, the use case discards its versions in memory and hands them to the cleaner while Badger keeps them")
+				} else {
+					r.Hold(rule, cons, p.pos(c), "every return after a nil result of db.Update returns nil")
+				}
+			default:
+				r.Viol(rule, cons, p.pos(c), "the result of db.Update is not reported ("+bs.Kind+")")
+			}
+		}
+	}
+	r.Floor(rule, "badger-update-calls", n, 1)
+}
+
+func init() {
+	wrap := func(id string, extra func(p *Prog, r *Report)) {
+		old := registry[id]
+		registry[id] = func(p *Prog, r *Report) {
+			old(p, r)
+			extra(p, r)
+		}
+	}
+	for id, rule := range map[string]string{"C04": "C04.k", "C03": "C03.i"} {
+		id, rule := id, rule
+		wrap(id, func(p *Prog, r *Report) {
+			r.Rule(rule, "Manager.RunTransaction returns nil whenever Badger's Update returned nil: a durable batch is never reported as failed")
+			c04BatchResultIsBadgersResult(p, r, rule)
 		})
 	}
 }
